@@ -97,5 +97,77 @@ theorem step_plain (img : Image) (s : State) (pc : Nat) (i : Instr)
   rw [if_neg (by simp [hs]), if_neg h0, h1, hi]
   cases i <;> first | exact absurd rfl hstop | simp_all
 
+/-- a step at an ordinary instruction: the handler's result, with `pc` advanced if the machine
+is still running -/
+theorem step_plain_gen (img : Image) (s : State) (pc : Nat) (i : Instr)
+    (hs : s.status = .running) (hpc : s.pc = (pc : Int)) (hi : img.code[pc]? = some i)
+    (hstop : i ≠ .stop)
+    (hplain : (match i with | .end_ _ | .endMatrix | .jsr _ | .jump _ _ => false | _ => true) = true) :
+    step img s = if (execInstr img s i).status = .running
+      then { execInstr img s i with pc := (execInstr img s i).pc + 1 } else execInstr img s i := by
+  unfold step
+  have h0 : ¬ (s.pc < 0) := by omega
+  have h1 : s.pc.toNat = pc := by omega
+  rw [if_neg (by simp [hs]), if_neg h0, h1, hi]
+  by_cases hr : (execInstr img s i).status = .running
+  · rw [if_pos hr]; cases i <;> first | exact absurd rfl hstop | simp_all
+  · rw [if_neg hr]; cases i <;> first | exact absurd rfl hstop | simp_all
+
+theorem step_pushq (img : Image) (s : State) (pc : Nat) (v : Val)
+    (hs : s.status = .running) (hpc : s.pc = (pc : Int))
+    (hi : img.code[pc]? = some (.pushq v)) :
+    step img s = { s with pc := (pc : Int) + 1, eval := v :: s.eval } := by
+  rw [step_plain img s pc _ hs hpc hi (by simp) rfl]
+  · simp [execInstr, hpc]
+  · simp [execInstr, hs]
+
+theorem step_push (img : Image) (s : State) (pc : Nat) (src : Src) (v : Val)
+    (hs : s.status = .running) (hpc : s.pc = (pc : Int))
+    (hi : img.code[pc]? = some (.push src)) (hsrc : ∀ x, src ≠ .lit x)
+    (hv : s.read src = v) (hne : v = .none → False) :
+    step img s = { s with pc := (pc : Int) + 1, eval := v :: s.eval } := by
+  have hex : execInstr img s (.push src) = { s with eval := v :: s.eval } := by
+    cases src with
+    | lit x => exact absurd rfl (hsrc x)
+    | _ =>
+      -- the default arm of the `match` on the value read is selected by `hne`
+      simp only [execInstr, hv]
+  rw [step_plain img s pc _ hs hpc hi (by simp) rfl]
+  · simp [hex, hpc]
+  · simp [hex, hs]
+
+theorem step_op (img : Image) (s : State) (pc : Nat) (o : Operator) (s' : State)
+    (hs : s.status = .running) (hpc : s.pc = (pc : Int))
+    (hi : img.code[pc]? = some (.op o)) (hd : s.doOp o = s') (hr : s'.status = .running) :
+    step img s = { s' with pc := s'.pc + 1 } := by
+  rw [step_plain img s pc _ hs hpc hi (by simp) rfl]
+  · simp [execInstr, hd]
+  · simp [execInstr, hd, hr]
+
+
+theorem putVariable_eval (s : State) (n : String) (v : Val) : (s.putVariable n v).eval = s.eval := by
+  unfold State.putVariable
+  repeat' split
+  all_goals rfl
+
+theorem put_eval (s : State) (d : Dst) (v : Val) : (s.put d v).eval = s.eval := by
+  cases d with
+  | reg r => rfl
+  | var n => exact putVariable_eval s n v
+  | loopVar l =>
+    simp only [State.put, State.putLoopVar]
+    split <;> rfl
+
+theorem step_pop (img : Image) (s : State) (pc : Nat) (d : Dst) (v : Val) (rest : List Val)
+    (hs : s.status = .running) (hpc : s.pc = (pc : Int))
+    (hi : img.code[pc]? = some (.pop d)) (hev : s.eval = v :: rest) :
+    step img s =
+      if (({ s with eval := rest }).put d v).status = .running
+      then { ({ s with eval := rest }).put d v with pc := (({ s with eval := rest }).put d v).pc + 1 }
+      else ({ s with eval := rest }).put d v := by
+  rw [step_plain_gen img s pc _ hs hpc hi (by simp) rfl]
+  simp [execInstr, hev]
+
+
 end VmSteps
 end Bardolph
